@@ -42,15 +42,16 @@ Init == /\ exp \in ExpChoices
         /\ blocks = <<[parent |-> 0, time |-> 0, txl |-> <<>>, acc |-> TRUE]>>       \* genesis
         /\ stable = 1 /\ dead = {}
 Offer(p, tm, L) == /\ N < MaxBlocks /\ p \in Usable /\ tm >= blocks[p].time
+                   /\ ~ \E X \in 1..N : blocks[X].parent = p /\ blocks[X].time = tm /\ blocks[X].txl = L   \* the very same block again is ignored
                    /\ blocks' = Append(blocks, [parent |-> p, time |-> tm, txl |-> L, acc |-> Valid(p, tm, L)])
                    /\ UNCHANGED <<exp, stable, dead>>
-Advance(s) == /\ s \in Usable /\ s # stable /\ stable' = s /\ UNCHANGED <<exp, blocks, dead>>
-Restart == /\ dead' = dead \cup ((1..N) \ Anc(stable))
-           /\ dead' # dead \/ N < MaxBlocks                      \* bound: only where it matters
+Stabilise(s) == /\ s \in Usable /\ s # stable /\ stable' = s /\ UNCHANGED <<exp, blocks, dead>>
+Reboot == /\ dead' = dead \cup ((1..N) \ Anc(stable))
+           /\ (dead' # dead \/ N < MaxBlocks)                    \* bound: only where it matters
            /\ UNCHANGED <<exp, blocks, stable>>
 Next == \/ \E p \in 1..MaxBlocks, tm \in Times, L \in OfferMenu : Offer(p, tm, L)
-        \/ \E s \in 1..MaxBlocks : Advance(s)
-        \/ Restart
+        \/ \E s \in 1..MaxBlocks : Stabilise(s)
+        \/ Reboot
 Spec == Init /\ [][Next]_vars
 \* ---- the property on the design ----
 Count(s, x) == Cardinality({i \in 1..Len(s) : s[i] = x})
